@@ -104,6 +104,25 @@ def who(ctx, cfg, fs):
             desc = sorted({'%s:%s.%s' % (r.kind, r.what, '.'.join(r.path)) for r in roots})
             ctx.ob('P.name-provenance', '%s:var_os-name' % owner, good,
                    '%s: the variable name(s) looked up come from %s' % (owner, desc), where=ob.where(blk), cfg=cfg)
+    # "set" means set: the value the lookup returned decides presence as it is (an empty value is a value; `--name=` is accepted on the
+    # line too).  In the two parsing functions the Option coming back from var_os - directly or through find_map / and_then - is only
+    # moved, tested for Some and handed on; no adaptor (filter, and_then with a test, map ..) sits between the lookup and the decision.
+    ADAPT = r'Option::<.*>::(filter|and_then|map|map_or|map_or_else|take_if|xor|zip|or|or_else|is_some_and|is_none_or)$'
+    for owner in sorted({outer(b.path) for (b, bb, fn, how, call) in uses if re.search(r'ParseFlag<T> as Parser<T>>::eval$|take_argument$', outer(b.path))}):
+        post = []; n = 0
+        for x in fs.family(fs.body(owner)):
+            srcs = [c for c in x.calls() if c.is_(r'^std::env::var_os$') or any(a[0] == 'c' and str(a[1].get('fn', '')).startswith('std::env::var_os') for a in c.args)]
+            for c in srcs:
+                if not c.dest: continue
+                n += 1
+                seen, sinks = flows_to(x, c.dest[0], through=None)
+                for (bb_, k_, kind_, p_) in sinks:
+                    if kind_ == 'call':
+                        cc = Call(x, bb_, p_)
+                        if cc.is_(ADAPT) and not (cc.is_(r'::and_then$') and any(a[0] == 'c' and str(a[1].get('fn', '')).startswith('std::env::var_os') for a in cc.args)):
+                            post.append('%s at %s' % (cc.name.split('::')[-1], x.where(bb_)))
+        ctx.ob('P.name-provenance', '%s:value-decides-as-it-is' % owner, n > 0 and not post,
+               '%s: the result of the environment lookup (%d site(s)) reaches the presence decision unfiltered: %s' % (owner, n, sorted(set(post)) or 'ok'), where=fs.body(owner).where(), cfg=cfg)
     # supports_color: only from Color::default
     for b in fs.bodies.values():
         for c in b.calls():
@@ -247,6 +266,21 @@ def flag(ctx, cfg, fs):
     good = bool(present_ok) and sw is not None and all(not body.reaches(sw.target(False), [p], avoid=set(envb)) for p in present_ok)
     ctx.ob('F.flag-precedence', 'ParseFlag::eval:present-needs-line-or-env', good,
            'Ok(present) is not reachable from the take_flag==false edge without passing the environment lookup', where=body.where(), cfg=cfg)
+
+    # ... and the converse, for every shape of flag (switch, flag(a, b) AND req_flag, which has no absent value): any outcome other than
+    # Ok(present) - the absent value, or the "expected --flag" failure - is produced only on the edge where the lookup said "not set"
+    tests = []
+    for s_ in switches(body):
+        if s_.kind != 'bool': continue
+        for r in (s_.roots or []):
+            if r.kind == 'call' and r.call.is_(r'Option::<.*>::(is_some|is_none)$'):
+                src = provenance(body, r.call.args[0], r.call.bb, 'term')
+                if any(q.kind == 'call' and q.call.bb in envb for q in src):
+                    tests.append((s_, r.call.is_(r'::is_none$')))
+    others = [i for i, k, st in body.stmts() if st['k'] == 'assign' and st['lhs'] == [0, []] and st['rv']['k'] == 'agg' and st['rv'].get('variant') in ('Ok', 'Err') and i not in present_ok]
+    conv = bool(tests) and bool(others) and all(any(only_via_edge(body, t_.b, t_.target(neg), o) for (t_, neg) in tests) for o in others)
+    ctx.ob('F.flag-precedence', 'ParseFlag::eval:absent-outcomes-need-unset-variable', conv,
+           'every outcome other than Ok(present) (%d site(s)) lies behind the "no declared variable is set" edge of the lookup (%d test(s)): %s' % (len(others), len(tests), conv), where=body.where(), cfg=cfg)
 
 def argument(ctx, cfg, fs):
     body = ctx.look(fs.one(r'^params::ParseArgument::<T>::take_argument$'))
